@@ -956,8 +956,16 @@ def lin_cases(rng, n):
             continue
         for t in range(nt):
             ops = []
+            made = 0          # subscribers this thread has created so far (handle t*10 + j)
             for _ in range(rng.randrange(2, 6)):
                 r = rng.random()
+                if not sets_only and rng.random() < 0.12:
+                    if made and rng.random() < 0.6:
+                        ops.append(rng.choice(("lpoll(%d)", "lnext_now(%d)")) % (t * 10 + rng.randrange(made)))
+                    elif made < 3:
+                        ops.append("subscribe")
+                        made += 1
+                    continue
                 if sets_only:
                     ops.append(rng.choice(("set(%d)" % fresh(), "get", "get")) if r < 0.8 or t not in owner
                                else rng.choice(("next_now(%d)" % t, "poll(%d)" % t)))
